@@ -4,7 +4,7 @@ import os
 ROOT = os.path.dirname(os.path.dirname(os.path.abspath(__file__)))
 L = os.path.join(ROOT, "lean")
 AREAS = [("Bdd", "bdd"), ("Bcdd", "bcdd"), ("Zbdd", "zbdd"), ("HashTbl", "tbl"), ("Mtbdd", "mtbdd"), ("Tdd", "tdd"),
-         ("Num", "nat"), ("Dddmp", "dddmp"), ("VarNames", "names"), ("Circuit", "circ"), ("Ffi", "capi"), ("Locks", "locks")]
+         ("Num", "nat"), ("Dddmp", "dddmp"), ("VarNames", "names"), ("Circuit", "circ"), ("Ffi", "capi"), ("Locks", "locks"), ("Alloc", "alloc")]
 have = [(a, p) for a, p in AREAS if os.path.exists(os.path.join(L, "OxiddModel", a, "Driver.lean"))]
 EXTRA_PROTOS = [("capi-before-fix", "OxiddModel.Ffi.protoBeforeFix")] if any(a == "Ffi" for a, _ in have) else []
 EXTRA_IMPORTS = []
